@@ -209,4 +209,188 @@ theorem binv_exec (s : List Nat) : ∀ c, BInv c → BInv (exec s c) := by
     | none => simpa using h
     | some c' => simpa using binv_step t c c' h hs
 
+/-! ### memo -/
+
+/-- per-thread invariant of a memoised call of `f` with key `key t` -/
+def MOk {K V : Type} (f : K → V) (key : Nat → K) (t : Nat) : MPC K V → Prop
+  | .call k => k = key t
+  | .compute k => k = key t
+  | .store k v => k = key t ∧ v = f k
+  | .ret v => v = f (key t)
+
+structure MInv {K V : Type} (f : K → V) (key : Nat → K) (c : MCfg K V) : Prop where
+  memo : ∀ k v, c.memo k = some v → v = f k
+  pcs : ∀ t, MOk f key t (c.pc t)
+
+theorem minv_step {K V : Type} [DecidableEq K] (f : K → V) (key : Nat → K) (t : Nat) (c : MCfg K V)
+    (h : MInv f key c) : MInv f key (mstep f t c) := by
+  obtain ⟨hm, hp⟩ := h
+  have ht := hp t
+  unfold mstep
+  split
+  · rename_i k hpc
+    rw [hpc] at ht
+    split
+    · rename_i v hv
+      refine ⟨hm, ?_⟩
+      intro x
+      by_cases hx : x = t
+      · subst hx; simp only [upd_same, MOk]; rw [hm k v hv]; exact congrArg f ht
+      · simp only [upd_other _ _ _ _ hx]; exact hp x
+    · refine ⟨hm, ?_⟩
+      intro x
+      by_cases hx : x = t
+      · subst hx; simpa [MOk] using ht
+      · simp only [upd_other _ _ _ _ hx]; exact hp x
+  · rename_i k hpc
+    rw [hpc] at ht
+    refine ⟨hm, ?_⟩
+    intro x
+    by_cases hx : x = t
+    · subst hx; simp only [upd_same, MOk]; exact ⟨ht, rfl⟩
+    · simp only [upd_other _ _ _ _ hx]; exact hp x
+  · rename_i k v hpc
+    rw [hpc] at ht
+    refine ⟨?_, ?_⟩
+    · intro k' v' h'
+      simp only at h'
+      split at h'
+      · subst_vars; simp only [Option.some.injEq] at h'; rw [← h']; exact ht.2
+      · exact hm k' v' h'
+    · intro x
+      by_cases hx : x = t
+      · subst hx; simp only [upd_same, MOk]; rw [ht.2, ht.1]
+      · simp only [upd_other _ _ _ _ hx]; exact hp x
+  · exact ⟨hm, hp⟩
+
+theorem minv_exec {K V : Type} [DecidableEq K] (f : K → V) (key : Nat → K) (s : List Nat) :
+    ∀ c, MInv f key c → MInv f key (mexec f s c) := by
+  induction s with
+  | nil => intro c h; exact h
+  | cons t ts ih => intro c h; exact ih _ (minv_step f key t c h)
+
+/-! ### xsi:type widening -/
+
+def Mode.safe : Mode → Bool
+  | .curCall | .patched => true
+  | _ => false
+
+def WOk (c : WCfg) : WPC → Prop
+  | .pub => c.selBy = true
+  | .child => c.selBy = true
+  | .fin b => b = true
+  | .pubFirst => False
+  | _ => True
+
+structure WInv (m : Mode) (c : WCfg) : Prop where
+  pubSel : c.published = true → c.selBy = true
+  elemsSel : m = .curCall → c.inElems = true → c.selBy = true
+  noAdd : m = .curCall → ∀ t, c.pc t ≠ .addSel
+  pcs : ∀ t, WOk c (c.pc t)
+
+theorem wok_mono (c c' : WCfg) (h : c.selBy = true → c'.selBy = true) (p : WPC) (hp : WOk c p) : WOk c' p := by
+  cases p <;> simp_all [WOk]
+
+theorem winv_step (m : Mode) (hm : m.safe = true) (t : Nat) (c : WCfg) (h : WInv m c) :
+    WInv m (wstep m t c) := by
+  obtain ⟨h1, h2, h3, h4⟩ := h
+  have ht := h4 t
+  have hold : m ≠ .old := by intro h; subst h; simp [Mode.safe] at hm
+  have hcur : m ≠ .cur := by intro h; subst h; simp [Mode.safe] at hm
+  unfold wstep
+  split
+  · -- chk
+    split
+    · rename_i hpub
+      refine ⟨h1, h2, ?_, ?_⟩
+      · intro hc x; by_cases hx : x = t
+        · subst hx; simp
+        · simp only [upd_other _ _ _ _ hx]; exact h3 hc x
+      · intro x; by_cases hx : x = t
+        · subst hx; simp only [upd_same, WOk]; exact h1 hpub
+        · simp only [upd_other _ _ _ _ hx]; exact h4 x
+    · refine ⟨h1, h2, ?_, ?_⟩
+      · intro hc x; by_cases hx : x = t
+        · subst hx; simp [hold]
+        · simp only [upd_other _ _ _ _ hx]; exact h3 hc x
+      · intro x; by_cases hx : x = t
+        · subst hx; simp [hold, WOk]
+        · simp only [upd_other _ _ _ _ hx]; exact h4 x
+  · -- pubFirst: impossible in safe modes
+    rename_i hpc; rw [hpc] at ht; exact absurd ht (by simp [WOk])
+  · -- rdElems
+    split
+    · rename_i hin
+      refine ⟨h1, h2, ?_, ?_⟩
+      · intro hc x; by_cases hx : x = t
+        · subst hx; simp [hc, hold]
+        · simp only [upd_other _ _ _ _ hx]; exact h3 hc x
+      · intro x; by_cases hx : x = t
+        · subst hx
+          simp only [upd_same]
+          by_cases hp : m = .patched
+          · simp [hp, WOk]
+          · have hc : m = .curCall := by cases m <;> simp_all [Mode.safe]
+            simp [hp, hold, WOk, h2 hc hin]
+        · simp only [upd_other _ _ _ _ hx]; exact h4 x
+    · refine ⟨h1, h2, ?_, ?_⟩
+      · intro hc x; by_cases hx : x = t
+        · subst hx; simp
+        · simp only [upd_other _ _ _ _ hx]; exact h3 hc x
+      · intro x; by_cases hx : x = t
+        · subst hx; simp [WOk]
+        · simp only [upd_other _ _ _ _ hx]; exact h4 x
+  · -- setElems
+    split
+    · rename_i hc
+      refine ⟨fun _ => rfl, fun _ _ => rfl, ?_, ?_⟩
+      · intro _ x; by_cases hx : x = t
+        · subst hx; simp
+        · simp only [upd_other _ _ _ _ hx]; exact h3 hc x
+      · intro x; by_cases hx : x = t
+        · subst hx; simp [WOk]
+        · simp only [upd_other _ _ _ _ hx]; exact wok_mono c _ (fun _ => rfl) _ (h4 x)
+    · rename_i hc
+      refine ⟨h1, fun h => absurd h hc, fun h => absurd h hc, ?_⟩
+      intro x; by_cases hx : x = t
+      · subst hx; simp [WOk]
+      · simp only [upd_other _ _ _ _ hx]; exact wok_mono c _ (fun h => h) _ (h4 x)
+  · -- addSel
+    rename_i hpc
+    refine ⟨fun _ => rfl, fun _ _ => rfl, ?_, ?_⟩
+    · intro hc; exact absurd hpc (h3 hc t)
+    · intro x; by_cases hx : x = t
+      · subst hx; simp [hold, WOk]
+      · simp only [upd_other _ _ _ _ hx]; exact wok_mono c _ (fun _ => rfl) _ (h4 x)
+  · -- pub
+    rename_i hpc
+    rw [hpc] at ht
+    refine ⟨fun _ => ht, h2, ?_, ?_⟩
+    · intro hc x; by_cases hx : x = t
+      · subst hx; simp
+      · simp only [upd_other _ _ _ _ hx]; exact h3 hc x
+    · intro x; by_cases hx : x = t
+      · subst hx; simpa [WOk] using ht
+      · simp only [upd_other _ _ _ _ hx]; exact wok_mono c _ (fun h => h) _ (h4 x)
+  · -- child
+    rename_i hpc
+    rw [hpc] at ht
+    refine ⟨h1, h2, ?_, ?_⟩
+    · intro hc x; by_cases hx : x = t
+      · subst hx; simp
+      · simp only [upd_other _ _ _ _ hx]; exact h3 hc x
+    · intro x; by_cases hx : x = t
+      · subst hx; simpa [WOk] using ht
+      · simp only [upd_other _ _ _ _ hx]; exact h4 x
+  · exact ⟨h1, h2, h3, h4⟩
+
+theorem winv_exec (m : Mode) (hm : m.safe = true) (s : List Nat) :
+    ∀ c, WInv m c → WInv m (wexec m s c) := by
+  induction s with
+  | nil => intro c h; exact h
+  | cons t ts ih => intro c h; exact ih _ (winv_step m hm t c h)
+
+theorem winv_init (m : Mode) : WInv m winit := by
+  refine ⟨?_, ?_, ?_, ?_⟩ <;> simp [winit, WOk]
+
 end XsVerif.Threads
